@@ -304,6 +304,7 @@ Fixpoint s_accepted (c : conn) (t : list sobs) : list req :=
   | [] => []
   | SO SShutQueue :: _ => []
   | SO (SClose c') :: t' => if c =? c' then [] else s_accepted c t'
+  | SO (SClientFail c') :: t' => if c =? c' then [] else s_accepted c t'
   | SO (SEnq c' r) :: t' => if c =? c' then r :: s_accepted c t' else s_accepted c t'
   | _ :: t' => s_accepted c t'
   end.
@@ -319,7 +320,7 @@ Definition s_conns (t : list sobs) : list conn :=
   flat_map (fun o => match o with SO (SEnq c _) => [c] | _ => [] end) t.
 
 Definition s_closed_obs (t : list sobs) : list conn :=
-  flat_map (fun o => match o with SO (SClose c) => [c] | _ => [] end) t.
+  flat_map (fun o => match o with SO (SClose c) => [c] | SO (SClientFail c) => [c] | _ => [] end) t.
 
 Definition s_dropped_obs (t : list sobs) : list conn :=
   flat_map (fun o => match o with SO (SDrop c) => [c] | _ => [] end) t.
